@@ -1,0 +1,27 @@
+//go:build verif
+
+package tlcp
+
+import "errors"
+
+// Verification hook (build tag `verif` only): the two Finished verify_data values the
+// connection recorded (what each side computed or checked), for the tampering
+// correspondence of property C03. Nothing here is compiled without the tag.
+
+// VerifTranscriptFinished returns (clientFinished, serverFinished) as stored on the connection.
+// A value the handshake did not store (the second Finished on the server side) is all zero.
+func (c *Conn) VerifTranscriptFinished() (client, server [12]byte) {
+	c.handshakeMutex.Lock()
+	defer c.handshakeMutex.Unlock()
+	return c.clientFinished, c.serverFinished
+}
+
+// VerifAlertCode extracts the alert number from an error returned by the handshake
+// (local or remote alert), if it wraps one.
+func VerifAlertCode(err error) (int, bool) {
+	var a alert
+	if errors.As(err, &a) {
+		return int(a), true
+	}
+	return 0, false
+}
